@@ -442,7 +442,7 @@ func (e *kvElection) attemptPriorityTakeover(payloadBytes []byte) error {
 
 	var currentPayload leadershipPayload
 	if err := json.Unmarshal(entry.Value(), &currentPayload); err != nil {
-		return e.attemptAcquire()
+		return fmt.Errorf("cannot parse current leadership record: %w", err)
 	}
 
 	if e.cfg.Priority <= currentPayload.Priority {
